@@ -3,6 +3,7 @@
 package vlib
 
 import (
+	"bytes"
 	"context"
 	"crypto/sha256"
 	"database/sql"
@@ -279,6 +280,15 @@ func (e *Env) ScanCheckpoint(raw []byte) Held {
 	h.Origin, h.Size, h.Root, h.ParseOK = lines[0], sz, root, true
 	if e != nil {
 		h.Branch = e.trees[lines[0]+"\x00"+treeKey(sz, root)]
+		if h.Branch == nil && len(root) == 32 && sz <= e.realLimit() {
+			// not built in this process (e.g. read back after a restart): search the universe
+			for _, b := range e.Branches {
+				if r := b.Root(sz); bytes.Equal(r[:], root) {
+					h.Branch = b
+					break
+				}
+			}
+		}
 	}
 	return h
 }
